@@ -8,6 +8,7 @@ import Driver.TiiJ
 import Driver.JsonJ
 import Driver.FrontJ
 import Driver.LangJ
+import Driver.C13J
 
 def main (args : List String) : IO UInt32 := do
   match args with
@@ -29,7 +30,7 @@ def main (args : List String) : IO UInt32 := do
   | ["C11"] => Driver.runJudge Driver.WireJ.judgeC11; return 0
   | ["C01"] => Driver.runJudge Driver.LangJ.judge; return 0
   | ["C12"] => Driver.runJudge (Driver.FrontJ.judge "C12"); return 0
-  | ["C13"] => Driver.runJudge (Driver.FrontJ.judge "C13"); return 0
+  | ["C13"] => Driver.runJudge Driver.C13J.judge; return 0
   | ["C19"] => Driver.runJudge (Driver.FrontJ.judge "C19"); return 0
   | ["C16"] => Driver.runJudge Driver.JsonJ.judge; return 0
   | ["C17"] => Driver.runJudge Driver.TiiJ.judge; return 0
